@@ -255,6 +255,12 @@ def judge(case, r, known):
     if r is None or 'harness_error' in r:
         return [('harness', None, 'harness error: ' + json.dumps((r or {}).get('harness_error'))[:300], {'case': slim(case)})]
     if r['status'] != 'ok':
+        if case['kind'] == 'hand':
+            # the hand-written families are valid schemas on the pinned tree: if the system no longer
+            # accepts one the check loses its inputs (reported as a broken tie, no failing input)
+            e = r.get('err') or {}
+            out.append(('harness', None, f'a schema of the fixed valid corpus is no longer accepted ({case["tag"]}): '
+                        f'{e.get("type")}: {str(e.get("msg"))[:160]}', {'case': slim(case), 'observed': e}))
         return out          # not a schema the system holds
     sdl_in = case['sdl']
     nh = len(case['sessions']) - case.get('ncoll', 0)
